@@ -66,6 +66,20 @@ pub(crate) fn c18_cp437_ascii_identity(s: &mut impl Src) {
     s.assume(c == b' ' || c.is_ascii_alphanumeric());
     assert!(crate::parsers::ascii::CP437_TO_UNICODE[c as usize] == c as char);
 }
+// the converter's decode direction IS the table: all 256 codes (and the characters above the table are passed through).
+// Without this clause the table facts above say nothing about what convert_to_unicode returns (seed C18-11)
+pub(crate) fn c18_cp437_to_unicode_is_table(s: &mut impl Src) {
+    let v = s.u32();
+    if let Some(c) = char::from_u32(v) {
+        let r = crate::UnicodeConverter::convert_to_unicode(&crate::parsers::ascii::CP437Converter::default(), AttributedChar::new(c, TextAttribute::default()));
+        if v < 256 { assert!(r == crate::parsers::ascii::CP437_TO_UNICODE[v as usize]); } else { assert!(r == c); }
+    }
+}
+pub(crate) fn c18_atascii_to_unicode_is_table(s: &mut impl Src) {
+    let c = s.u8();
+    let r = crate::UnicodeConverter::convert_to_unicode(&crate::parsers::atascii::CharConverter::default(), AttributedChar::new(c as char, TextAttribute::default()));
+    assert!(r == crate::parsers::atascii::ATARI_TO_UNICODE[c as usize]);
+}
 pub(crate) fn c18_atascii_table_injective_128(s: &mut impl Src) {
     let i = s.u8() as usize;
     let j = s.u8() as usize;
@@ -129,6 +143,8 @@ kc_harness! {
     c05_from_u8_fields;
     c18_cp437_table_injective;
     c18_cp437_ascii_identity;
+    c18_cp437_to_unicode_is_table;
+    c18_atascii_to_unicode_is_table;
     c18_atascii_table_injective_128;
     c18_atascii_ascii_identity;
     c01_ctrla_table_len;
